@@ -23,7 +23,7 @@ RULE = (
     "evaluation: contexts^d x leaves (d<=2 quick, d<=3 core thorough) x full dictionary products, bodies/steps/"
     "predicates/factories/effects all logging; construction: 12 definition-time steps (decorator forms, overload, "
     "stacked overload, register, set_dispatch, with_options, +, >>, interface, implementation, datasetclass, "
-    "combinator wrapping) in all sequences of length <= 3 quick / 4 thorough on shared objects.  Non-trivial = "
+    "combinator wrapping) in all sequences of length <= 4 quick / 5 thorough on shared objects.  Non-trivial = "
     "(term, o) where the reference's may-set is strictly larger than what ran or some callable of the term did not run."
 )
 ASSUMPTIONS = [
@@ -56,7 +56,7 @@ def cases(tier, seed):
         n = sum(1 for _ in cat.catalogue(depth, None, ctxs))
         for a in range(0, n, 40):
             out.append(("batch", depth, ctxs, a, min(n, a + 40)))
-    L = 3 if tier == "quick" else 4
+    L = 4 if tier == "quick" else 5
     for first in range(len(STEPS)):
         out.append(("construct", first, L))
     return out
